@@ -180,9 +180,13 @@ def run(tier):
             k = prng.randint(2, 4)
             pick = [prng.choice(cs) for _ in range(k)]
             cid = "pl%s.%d" % (t, j)
-            form = j % 3
+            form = j % 4
             if form == 0:
                 body = "\tvar a: [%d]%s = [%s];\n\tprint!(%s, \"\\n\");\n" % (k, t, ", ".join(c["text"] for c in pick), ", \" \", ".join("a[%d]" % i for i in range(k)))
+            elif form == 3:
+                # literals next to a variable in one array literal: each element is where it was written
+                body = "\tvar w: %s = %s;\n\tvar a: [%d]%s = [%s];\n\tprint!(%s, \"\\n\");\n" % (t, pick[0]["text"], k, t, ", ".join("w" if i == (j // 4) % k else c["text"] for i, c in enumerate(pick)), ", \" \", ".join("a[%d]" % i for i in range(k)))
+                pick = [pick[0] if i == (j // 4) % k else c for i, c in enumerate(pick)]
             elif form == 1:
                 body = "\tprint!(%s, \"\\n\");\n" % ", \" \", ".join("id(%s)" % c["text"] for c in pick)
             else:
@@ -298,6 +302,12 @@ def run(tier):
         if got != (m["lint"], m["value"]):
             lmism += 1
             ck.violation("tie-broken:literal-wasm", "wasm32 target: `var x: usize = %s`: lint %s, stored %s; Model/Literal.v (lint_on 32, bits_of 32) says lint %s, value %s" % (text, got[0], got[1], m["lint"], m["value"]), src)
+    # several modules on the 32-bit target: every module is linted against ITS usize (the linter is made anew per module)
+    two = "".join("//// module m%d.pn\n%sfn f%d() -> usize\n{\n\tvar n: usize = 4294967296;\n\treturn: n\n}\n" % (k_, "pub extern fn start()\n{\n}\n" if k_ == 0 else "", k_) for k_ in range(3))
+    g2 = C.run_harness("ir-wasm", [("two", two)], ck.work + "/wasm2", timeout=600).get("two", ["missing"])
+    if not g2[0].startswith("ok") or g2[0].count("1142") != 3:
+        lmism += 1
+        ck.violation("silently-altered:wasm-usize:later-module" if g2[0].startswith("ok") else C.failure_key(g2[0]), "three modules compiled for wasm32, each with `var n: usize = 4294967296;`: %s (L1142 expected three times)" % g2[0][:120], two)
     ck.log("array lengths and 32-bit usize: %d programs, %d problems" % (len(lsrcs) + len(wsrcs), lmism))
     # the tie of Model/LintWalk.v: the declarations the real pipeline hands to the linter (serialised by
     # harness/src/lintser.rs) go through the extracted traversal; its lints (code, position) must be the real ones
